@@ -1,0 +1,25 @@
+//go:build verif
+
+package gojq
+
+import "encoding/json"
+
+// Verification hook for property C01/C03 (reference semantics coq/sem). This
+// file is compiled only with the build tag "verif".
+
+// VerifBuiltinFuncDefs exposes the precompiled jq-defined builtins (builtin.go),
+// so that the harness can check them against a fresh parse of builtin.jq.
+func VerifBuiltinFuncDefs() map[string][]*FuncDef { return builtinFuncDefs }
+
+// VerifToNumber is toNumber: the value a number literal (or a json.Number) denotes.
+func VerifToNumber(s string) any { return parseNumber(json.Number(s)) }
+
+// VerifInternalFuncArities lists the natives by name with their arity mask
+// (bit i set: accepts i arguments).
+func VerifInternalFuncArities() map[string]int {
+	m := make(map[string]int, len(internalFuncs))
+	for name, fn := range internalFuncs {
+		m[name] = fn.argcount
+	}
+	return m
+}
